@@ -10,6 +10,11 @@ CHECKS = {
     technique="TLA+ oracle ACL.tla evaluated by TLC over enumerated ACL sets; decisions compared with kfake (binding O1), sample replayed end-to-end",
     text="ACL.tla states Kafka's authorizer decision (DENY first, implied Describe/DescribeConfigs, literal/wildcard/prefixed, User:*, host *, authorizeByResourceType with DENY dominance). TLC enumerates ACL sets over a 336-entry universe (thorough: all singletons, all DENYxALLOW pairs, 30k random sets of 2-4) and computes every decision; the runner loads each set into kfake's ACL store and compares all 132 decisions per set, and replays a sample through SASL users, CreateACLs, Metadata authorized-operations and InitProducerID, including the superuser bypass.",
     note="Small alphabet (5 resource names, prefix relation by table); the oracle is a transcription of Kafka's rules anchored by ASSUMEd decisions; any-resource queries only on operations without implication rules."),
+ "C35": dict(
+    level="exploration", design="5/C35, 4.13",
+    technique="TLA+ oracle Lag.tla evaluated by TLC over enumerated group/commit/listing situations; compared with kadm (binding O1)",
+    text="Lag.tla defines the lag of a partition from (owner, commit, end listing, start listing) exactly as the property states. TLC enumerates cases (thorough: every state of one partition against every covered state of a second partition in the same and in another topic, 168k cases, plus random 3-4 partition cases) and prints expected lag and error flag; the runner builds DescribedGroup/OffsetResponses/ListedOffsets and compares CalculateGroupLag, CalculateGroupLagWithStartOffsets, Lookup/Sorted uniqueness, Total and TotalByTopic.",
+    note="Offsets from {0,3,7,9}; at most 2 members and 4 partitions; listed-only partitions are outside the property and not asserted."),
 }
 
 NOT_APPLICABLE = {
